@@ -414,3 +414,47 @@ func Exec(ctx context.Context, r ociregistry.Interface, op *Op, h *Handles) (res
 	}
 	return res
 }
+
+
+func openReader(ctx context.Context, r ociregistry.Interface, op *Op) (ociregistry.BlobReader, error) {
+	switch op.Kind {
+	case GetBlob:
+		return r.GetBlob(ctx, op.Repo, op.Digest)
+	case GetBlobRange:
+		return r.GetBlobRange(ctx, op.Repo, op.Digest, op.O0, op.O1)
+	case GetManifest:
+		return r.GetManifest(ctx, op.Repo, op.Digest)
+	case GetTag:
+		return r.GetTag(ctx, op.Repo, op.Tag)
+	}
+	return nil, fmt.Errorf("not a read operation: %s", op.Kind)
+}
+
+// IsRead reports whether op returns a BlobReader.
+func IsRead(k Kind) bool { return k == GetBlob || k == GetBlobRange || k == GetManifest || k == GetTag }
+
+// ExecOverlapped opens the readers of two read operations before draining either:
+// both are open at the same time, the first is drained first.
+func ExecOverlapped(ctx context.Context, r ociregistry.Interface, op1, op2 *Op) (*Res, *Res) {
+	res := [2]*Res{{}, {}}
+	var brs [2]ociregistry.BlobReader
+	for i, op := range []*Op{op1, op2} {
+		br, err := openReader(ctx, r, op)
+		if err != nil {
+			res[i].Err = err
+			continue
+		}
+		brs[i] = br
+		res[i].Desc = br.Descriptor()
+	}
+	for i, op := range []*Op{op1, op2} {
+		if brs[i] == nil {
+			continue
+		}
+		res[i].Data, res[i].ReadErr = drain(brs[i], op.ReadSize)
+		if res[i].Data == nil {
+			res[i].Data = []byte{}
+		}
+	}
+	return res[0], res[1]
+}
